@@ -400,7 +400,7 @@ def topological_sort(nodes):
 
     def find_first_dep(dependency, start_index):
         for i, n in enumerate(islice(nodes, start_index, None), start_index):
-            if n.name == dependency:
+            if n.name == dependency and not isinstance(n, Include):
                 return i
 
     def model_sort_rotate():
@@ -414,10 +414,12 @@ def topological_sort(nodes):
                 if found_index:
                     nodes.insert(index, nodes.pop(found_index))
                 return True
-        known.add(node.name)
+        if not isinstance(node, Include):
+            known.add(node.name)
 
-    known = set(x + y for x in "uir" for y in ["8", "16", "32", "64"])
-    available = set(node.name for node in nodes)
+    known = set(BUILTIN_SIZES)
+    """an include is not a definition: a file named like a definition does not provide it"""
+    available = set(node.name for node in nodes if not isinstance(node, Include))
     """an enumerator is defined by its enum: depending on the enumerator means depending on the enum"""
     enumerator_owner = dict((member.name, node.name) for node in nodes if isinstance(node, Enum)
                             for member in node.members)
